@@ -42,7 +42,7 @@ def convSnapshot (data : Bytes) : Option Bytes :=
     | some nodes =>
       match mapNodes nodes with
       | none => none
-      | some nn => some (ser (if nn.isEmpty then .null else .array nn))
+      | some nn => some (ser (.array nn))
 
 theorem migrateSnapshotAt_eq (s : Store) (i : Nat) :
     migrateSnapshotAt s i =
@@ -190,6 +190,11 @@ inductive NodesConv : List Item → List Item → Prop where
   | nil : NodesConv [] []
   | cons {n : Item} {b : Item} {rest ns ns' : List Item} (h : elems n = some (b :: rest)) (t : NodesConv ns ns') :
       NodesConv (n :: ns) (Item.struct [b, .int netmap_nodestate_Online] :: ns')
+
+theorem NodesConv.length_eq {ns ns' : List Item} (h : NodesConv ns ns') : ns'.length = ns.length := by
+  induction h with
+  | nil => rfl
+  | cons _ _ ih => simp [ih]
 
 /-- what `mapNodes` produces -/
 theorem mapNodes_spec {nodes nn : List Item} (h : mapNodes nodes = some nn) : NodesConv nodes nn := by
